@@ -693,6 +693,8 @@ func c05Generate(r *rng, c *c05Chain, run *c05Runner, nblocks int) ([]c05Op, err
 type c05Input struct {
 	HF  string  `json:"hf"` // hard-fork set of the chain
 	Ops []c05Op `json:"ops"`
+	// evaluated on the real chain only (contract code the model does not follow / a chain without Echidna): Coq case CDirect
+	Direct bool `json:"direct,omitempty"`
 }
 
 type c05Impl struct {
@@ -750,6 +752,10 @@ func c05RunCase(co *caseOut, in c05Input, gen func(c *c05Chain, run *c05Runner) 
 		co.violation("history", fmt.Sprintf("%-40s| block %d: %s", strings.Join(clauses, ","), violAt, strings.Join(viol, "; ")), in, c05Summary(run.blocks, violAt))
 	}
 	tag, nontrivial := c05Tag(in.Ops, run.blocks)
+	if in.Direct {
+		co.add("history", "direct/"+tag, nontrivial, in, c05Summary(run.blocks, 0), fmt.Sprintf("CDirect %d", len(in.Ops)))
+		return nil
+	}
 	co.add("history", tag, nontrivial, in, c05Summary(run.blocks, 0), c05CoqCase(c, in, run.blocks))
 	return nil
 }
@@ -859,6 +865,15 @@ func runC05(args []string) error {
 			co.violation("pre-echidna", strings.Join(viol, "; "), in, nil)
 		}
 		co.add("pre-echidna", "no-notification-limit", true, in, map[string]any{"ops": len(in.Ops)}, fmt.Sprintf("CDirect %d", len(in.Ops)))
+	}
+	// payment callbacks that re-enter the native contract in progress (c05reent.go); evaluated on the real chain only
+	for i := 0; i < 1+cf.n/8; i++ {
+		sub := newRng(r.next())
+		nb := 8 + sub.intn(8)
+		in := c05Input{HF: hfs[i%len(hfs)], Direct: true}
+		if err := c05RunCase(co, in, func(c *c05Chain, run *c05Runner) ([]c05Op, error) { return c05Reentrant(sub, c, run, nb) }); err != nil {
+			return err
+		}
 	}
 	for i := 0; i < cf.n; i++ {
 		nb := 12 + r.intn(19)
